@@ -84,6 +84,66 @@ class TupleRoundTrip(Instance):
         return s["packed"] == n.get("packed") and s["unpacked"] == n.get("unpacked")
 
 
+class TupleLong(Instance):
+    """Long inputs: lengths at and around every multiple of 256 up to 1024 and all remainders modulo the tuple widths; the class (tuple
+    width) is decided by one symbolic byte (values 0..17), the other bytes follow a fixed pattern below every class bound. The marker
+    must be (width << 4 | len mod width) and unpack(pack(b)) == b."""
+    required_witnesses = ("class4", "class6", "class16", "raw")
+    LENS = [15, 16, 17, 254, 255, 256, 257, 258, 259, 511, 512, 513, 514, 767, 768, 769, 770]
+
+    def __init__(self, name, lens=None):
+        Instance.__init__(self, name)
+        self.lens = lens or self.LENS
+        self.n_concrete = 6
+        self.bounds = {"length": f"one of {self.lens}", "content": "byte i = i mod 4, except one symbolic byte (the last) over 0..17 that decides the symbol class", "functions": "bytes_to_tuples, tuples_to_bytes"}
+
+    def path(self, e):
+        n = self.lens[e.choose(len(self.lens), "len_i")]
+        e.inputs["n"] = n
+        top = e.sym_bytes("top", 1, among=list(range(18)))[0]
+        b = [Int(8, 0, i % 4) for i in range(n - 1)] + [top]            # last position: the running maximum stays concrete until the end
+        p = e.vec_items(e.call_fn(CORE, "bytes_to_tuples", [e.slice_of(b)]))
+        if e.concrete is not None:
+            u = e.vec_items(e.call_fn(CORE, "tuples_to_bytes", [e.slice_of(p)]))
+            return {"packed": [x.v for x in p], "unpacked": [x.v for x in u]}
+        if e.branch(e.binop("Lt", top, Int(8, 0, 4))):
+            N = 4; e.witness("class4")
+        elif e.branch(e.binop("Lt", top, Int(8, 0, 6))):
+            N = 3; e.witness("class6")
+        elif e.branch(e.binop("Lt", top, Int(8, 0, 16))):
+            N = 2; e.witness("class16")
+        else:
+            N = 1; e.witness("raw")
+        if N == 1:
+            e.prove(len(p) == n + 1 and p[-1].conc() and p[-1].v == 0x10, "tuple:layout", f"raw class: packed length/marker wrong (n={n})")
+        else:
+            e.prove(len(p) == n // N + 2, "tuple:layout", f"packed length {len(p)} != {n // N + 2} (n={n}, width {N})")
+            e.prove(p[-1].conc() and p[-1].v == ((N << 4) | (n % N)), "tuple:layout", f"marker byte is {p[-1].v if p[-1].conc() else '?'}, the format says {(N << 4) | (n % N):#x} (n={n}, width {N})")
+        u = e.vec_items(e.call_fn(CORE, "tuples_to_bytes", [e.slice_of(p)]))
+        e.prove(len(u) == n, "tuple:roundtrip", f"unpacked length {len(u)} != {n}")
+        e.prove(e.eq_bytes(u, b), "tuple:roundtrip", "unpack(pack(b)) != b")
+        return None
+
+    def classify_panic(self, e, ex):
+        return f"tuple:panic:{ex.where.split('::')[-1]}:{ex.kind}", str(ex)
+
+    def native(self, inp):
+        n = inp.get("n") or self.lens[inp.get("len_i", 0)]
+        return "tuple_roundtrip", {"b": [i % 4 for i in range(n - 1)] + [(inp.get("top") or [0])[0]]}
+
+    def confirm(self, viol, outs):
+        for o in outs.values():
+            if "panic" in o or "crash" in o or o.get("unpacked") != o.get("input"):
+                return True
+        return False
+
+    def concrete_cases(self, rnd):
+        return [{"len_i": rnd.randrange(len(self.lens)), "top": [rnd.choice([0, 3, 4, 5, 6, 15, 16])]} for _ in range(6)]
+
+    def compare(self, s, n):
+        return s["packed"] == n.get("packed") and s["unpacked"] == n.get("unpacked")
+
+
 class RefSegment(Instance):
     """compress_reference_segment / compress_segment_configured + decompress_segment_with_marker with ZSTD as a lossless stub
     whose frame size is a free choice (small or worst case): marker in {0,1}, marker 1 <=> tuple-packed payload,
@@ -141,11 +201,12 @@ def _reg(i):
 
 _reg(TupleRoundTrip("tuple_q", 9))
 _reg(TupleRoundTrip("tuple_t", 14))
+_reg(TupleLong("tuple_long"))
 _reg(RefSegment("refseg_q", 6, [0, 1, 4, 30]))
 _reg(RefSegment("refseg_t", 8, [0, 1, 2, 3, 4, 30]))
 
 
 def run(ctx):
-    insts = [INSTANCES["tuple_q"], INSTANCES["refseg_q"]] if ctx["tier"] == "quick" else [INSTANCES["tuple_t"], INSTANCES["refseg_t"]]
+    insts = [INSTANCES["tuple_q"], INSTANCES["tuple_long"], INSTANCES["refseg_q"]] if ctx["tier"] == "quick" else [INSTANCES["tuple_t"], INSTANCES["tuple_long"], INSTANCES["refseg_t"]]
     return run_instances("C12", "harness.C12", insts, ctx,
                          assumptions=["libzstd is lossless and context reuse does not change output (ZSTD is C code behind FFI: abstract lossless codec stub)"])
